@@ -186,9 +186,11 @@ Print Assumptions C11_clone_copy.
    model cannot express two handles sharing a Go map, so the clause "Clone is
    independent of the original" of the property is NOT established by this
    theorem for the real code. It is established by the harness only, which
-   re-reads every handle after every operation on any handle and compares it
-   with its own reference (a Clone that shared a map with its receiver shows up
-   there as a changed observation of the other handle). What IS proved about
+   re-reads all handles and compares each with its own reference — after every
+   operation in the exhaustive, random, unusual-int and small typed streams, at
+   the end of every script phase in the large-Bimap and large typed streams —
+   so that a Clone sharing a map with its receiver shows up as a changed
+   observation of the other handle. What IS proved about
    Clone is C11_clone_copy: the copy reads like its source and its two maps are
    allocated by maps.Clone's make, never the receiver's fields. *)
 Theorem C11_frame_value_model : forall ops1 ops2 st1 st2 h,
